@@ -5,7 +5,7 @@ cd "$(dirname "$0")"
 export CARGO_NET_OFFLINE=true
 mkdir -p .build evidence
 [ -f replay/Cargo.lock ] || cp /repo/Cargo.lock replay/Cargo.lock
-(cd replay && cargo build --offline --release --target-dir ../.build/replay >/dev/null 2>../.build/replay_build.log) || { tail -30 .build/replay_build.log; exit 1; }
+(cd replay && RUSTFLAGS='--cfg dfinity_bitcoin_canister_verif' cargo build --offline --release --target-dir ../.build/replay >/dev/null 2>../.build/replay_build.log) || { tail -30 .build/replay_build.log; exit 1; }
 for p in ic-btc-canister ic-btc-validation watchdog ic-btc-interface ic-cdk-bitcoin-canister; do
   (cd /repo && cargo +nightly rustc --offline --lib -p $p --target-dir /verif/.build/mir -- -Zunpretty=mir -Awarnings >/dev/null 2>>/verif/.build/mir_build.log) || { tail -30 .build/mir_build.log; exit 1; }
 done
